@@ -90,6 +90,22 @@ CLAIMED["C12"] = (
     "Lean 4 proof (cache invariant by induction over histories) with translated source tie and model-code correspondence",
     "DESIGN.md §5 C12, §10.2")
 
+CLAIMED["C13"] = (
+    "Lean 4 theorems over a model of name resolution (has_traits_getattro/setattro, get_trait, get_prefix_trait with its class-"
+    "dictionary cache, __prefix_trait__, the hierarchy merge and longest-first sort of update_traits_class_dict, the access-policy "
+    "handlers per trait kind, add_trait/remove_trait): governing trait = instance > class (own or inherited) > longest matching "
+    "wildcard > class default for every name and hierarchy; the first match of the sorted list is a longest matching prefix for "
+    "all names and all wildcard lists; cache coherence along histories; strict / private class rules; ReadOnly once, Constant, "
+    "Event write-only, remove_trait restores — each along every history (induction). The sort key/reverse flag, match expression "
+    "and dunder tests are regenerated from the source by a translator on every run and proved equal to the model's. Where the "
+    "code departs from the universally quantified statement (dunder names, late subclass of an already-used class, stale "
+    "__dict__ value after add_trait, multiple inheritance merge order, delegate shadow cache: F50-F56) the theorem carries the "
+    "exact hypothesis, the full statement stays as a def, and a negation witness is proved.",
+    "Trusted: Lean kernel, standard axioms; translator prefix; validators and type attributes are parameters; delegate access is "
+    "opaque; Python's C3 MRO is computed by the oracle only; harness.",
+    "Lean 4 proof (lookup order, longest-prefix, policy automata by induction over histories) with translated constants and correspondence",
+    "DESIGN.md §5 C13, §10.2")
+
 NOT_YET = "check not built yet in this round (planned in DESIGN.md §9); not claimed until it exists"
 
 
